@@ -445,6 +445,26 @@ impl Cfg {
             .unwrap_or(1.0);
         (((total as f64) * scale) as u64).div_ceil(self.nshards.max(1))
     }
+    /// write the report as it stands (at most every 4 s): if the worker process is later killed by
+    /// resource exhaustion, the driver still has what was observed so far
+    pub fn checkpoint(&self, rep: &Report) {
+        use std::sync::Mutex;
+        static LAST: Mutex<Option<std::time::Instant>> = Mutex::new(None);
+        let mut last = LAST.lock().unwrap();
+        let due = last.is_none_or(|t| t.elapsed().as_secs_f64() > 4.0);
+        if due && self.out != "/dev/stdout" && !self.out.is_empty() {
+            *last = Some(std::time::Instant::now());
+            let tmp = format!("{}.tmp", self.out);
+            if std::fs::write(&tmp, rep.render()).is_ok() {
+                let _ = std::fs::rename(&tmp, &self.out);
+            }
+            let mut bytes = Vec::with_capacity(rep.distinct.len() * 8);
+            for h in &rep.distinct {
+                bytes.extend_from_slice(&h.to_le_bytes());
+            }
+            let _ = std::fs::write(format!("{}.distinct", self.out), bytes);
+        }
+    }
     /// does this shard own item i of an enumerated space?
     pub fn owns(&self, i: u64) -> bool {
         // mixed, so that enumeration order does not correlate with shard load
